@@ -1000,10 +1000,15 @@ func (c *codegen) Visit(node ast.Node) ast.Visitor {
 		c.currentSwitch = label
 		c.pushStackLabel(label, 1)
 
-		last := len(n.Body.List) - 1
-		for i := range last {
-			if n.Body.List[i].(*ast.CaseClause).List == nil { // early default
-				n.Body.List[i], n.Body.List[last] = n.Body.List[last], n.Body.List[i]
+		// The `default` clause is taken only if no other clause matches wherever
+		// it is in the source. An early default is compiled in place (clauses are
+		// tested in the source order and `fallthrough` passes to the next clause
+		// of the source), it is just jumped over while clauses are being tested
+		// and jumped to if all of them have failed.
+		earlyDefault := -1
+		for i := range len(n.Body.List) - 1 {
+			if n.Body.List[i].(*ast.CaseClause).List == nil {
+				earlyDefault = i
 				break
 			}
 		}
@@ -1017,6 +1022,9 @@ func (c *codegen) Visit(node ast.Node) ast.Visitor {
 			lStart := startLabels[i]
 			cc := n.Body.List[i].(*ast.CaseClause)
 
+			if i == earlyDefault {
+				emit.Jmp(c.prog.BinWriter, opcode.JMPL, lEnd)
+			}
 			if l := len(cc.List); l != 0 { // if not `default`
 				for j := range cc.List {
 					emit.Opcodes(c.prog.BinWriter, opcode.DUP)
@@ -1045,6 +1053,9 @@ func (c *codegen) Visit(node ast.Node) ast.Visitor {
 			c.setLabel(lEnd)
 
 			c.scope.vars.dropScope()
+		}
+		if earlyDefault >= 0 {
+			emit.Jmp(c.prog.BinWriter, opcode.JMPL, startLabels[earlyDefault])
 		}
 
 		c.setLabel(switchEnd)
